@@ -251,7 +251,11 @@ bool FileManager::readStream(std::istream &_istream, MeshT &_mesh,
                 hes.emplace_back(v1);
             }
 
-            _mesh.add_face(hes, _topologyCheck);
+            if (!_mesh.add_face(hes, _topologyCheck).is_valid()) {
+                // all later halfface indices in the file would refer to the wrong (or no) face
+                std::cerr << "OVM File loading error: face #" << i << " was rejected by the mesh." << std::endl;
+                return false;
+            }
         }
     }
     size_t n_halffaces = 2 * n_faces;
@@ -311,7 +315,10 @@ bool FileManager::readStream(std::istream &_istream, MeshT &_mesh,
                 hfs.emplace_back(v1);
             }
 
-            _mesh.add_cell(hfs, _topologyCheck);
+            if (!_mesh.add_cell(hfs, _topologyCheck).is_valid()) {
+                std::cerr << "OVM File loading error: cell #" << i << " was rejected by the mesh." << std::endl;
+                return false;
+            }
         }
     }
 
